@@ -766,3 +766,6 @@ func ModuleAddr(name string) sdk.AccAddress { return authtypes.NewModuleAddress(
 
 // GovAddr is the governance authority.
 func GovAddr() sdk.AccAddress { return authtypes.NewModuleAddress(govtypes.ModuleName) }
+
+// ValAddr is the consensus/operator address bytes of the genesis validator.
+func (c *Chain) ValAddr() []byte { return c.valAddr }
